@@ -21,4 +21,7 @@ if [ "${VERIF_NOBUILD:-}" != 1 ]; then
     case "$ID" in C05|C06|C07|C12|C14|C15|C19) ( flock 9; "$VERIF/buildov.sh" ) 9>"$VERIF/.cache/buildov.lock" || { echo "BUILD-ERROR(overlay) property=$ID"; exit 2; } ;; esac
   fi
 fi
+# the thorough tier stops dispatching new cases after 40 minutes (cases are enumerated simplest first): it then
+# reports exhaustive=false with the number of cases completed, and still exits 0 / 1 on what it explored
+if [ "$TIER" = thorough ]; then export VERIF_DEADLINE_S=${VERIF_DEADLINE_S:-2400}; fi
 exec "$VERIF/.cache/bin/vcheck" "$ID" --tier "$TIER"
